@@ -1179,12 +1179,24 @@ where
     }
 }
 
+// Handles are only unique within the store that holds the item: keys and data of different datasets
+// (and text selections of different resources) share handles. Items are therefore identified by
+// their store *and* their handle; stores of one kind live next to each other in the parent's
+// vector, so ordering by the store's address is ordering by the store's own handle.
+impl<'store, T> ResultItem<'store, T>
+where
+    T: Storable,
+{
+    fn identity(&self) -> (usize, T::HandleType) {
+        (self.store as *const T::StoreType as *const u8 as usize, self.handle())
+    }
+}
 impl<'store, T> PartialEq for ResultItem<'store, T>
 where
     T: Storable,
 {
     fn eq(&self, other: &Self) -> bool {
-        self.handle() == other.handle()
+        self.identity() == other.identity()
     }
 }
 impl<'store, T> Eq for ResultItem<'store, T> where T: Storable {}
@@ -1193,7 +1205,7 @@ where
     T: Storable,
 {
     fn hash<H: Hasher>(&self, state: &mut H) {
-        self.handle().hash(state)
+        self.identity().hash(state)
     }
 }
 impl<'store, T> PartialOrd for ResultItem<'store, T>
@@ -1201,7 +1213,7 @@ where
     T: Storable,
 {
     fn partial_cmp(&self, other: &Self) -> Option<Ordering> {
-        Some(self.handle().cmp(&other.handle()))
+        Some(self.identity().cmp(&other.identity()))
     }
 }
 impl<'store, T> Ord for ResultItem<'store, T>
@@ -1209,7 +1221,7 @@ where
     T: Storable,
 {
     fn cmp(&self, other: &Self) -> Ordering {
-        self.handle().cmp(&other.handle())
+        self.identity().cmp(&other.identity())
     }
 }
 
